@@ -50,6 +50,9 @@ pub struct EItem {
     pub generics: String,
     pub where_clause: String,
     pub body: EBody,
+    /// the one type parameter read by a derived FromTypeParam receiver (with the text of the parameters
+    /// before and after it); `generics` is then not used for rendering
+    pub tparam: Option<(String, ETypeParam, String)>,
 }
 
 #[derive(Clone, Debug)]
@@ -214,6 +217,17 @@ impl<'a, 'b> ElemGen<'a, 'b> {
                     }
                     _ => EBody::Struct(self.fields(rng, body_field, mistakes)),
                 };
+                // a `generics` field read by a derived FromTypeParam receiver: one type parameter carrying
+                // that receiver's attributes, lifetimes / const parameters around it
+                let tp_reader = r.magic.iter().find(|m| m.kind == MagicKind::Generics).and_then(|m| m.tparam_recv).map(|i| &self.recvs[i]);
+                let tparam = tp_reader.map(|tr| {
+                    let before = if rng.coin() { "'a, ".to_string() } else { String::new() };
+                    let after = if rng.chance(1, 3) { ", const N: usize".to_string() } else { String::new() };
+                    let mut t = self.type_param(rng, tr, mistakes);
+                    t.name = "T".into();
+                    (before, t, after)
+                });
+                let where_clause = if tparam.is_some() && generics.is_empty() { String::new() } else { where_clause };
                 Element::Item(EItem {
                     attrs: self.attrs_for(rng, Some(r), mistakes),
                     vis: (*rng.pick(&VIS)).to_string(),
@@ -221,6 +235,7 @@ impl<'a, 'b> ElemGen<'a, 'b> {
                     generics,
                     where_clause,
                     body,
+                    tparam,
                 })
             }
             Trait::Field => {
@@ -235,18 +250,22 @@ impl<'a, 'b> ElemGen<'a, 'b> {
                 v.attrs = self.attrs_for(rng, Some(r), mistakes);
                 Element::Variant(v)
             }
-            Trait::TypeParam => Element::TypeParam(ETypeParam {
-                attrs: self.attrs_for(rng, Some(r), mistakes),
-                name: (*rng.pick(&["T", "U", "Item"])).to_string(),
-                bounds: match rng.below(4) {
-                    0 => vec![],
-                    1 => vec!["Clone".into()],
-                    2 => vec!["Clone".into(), "?Sized".into(), "'static".into()],
-                    _ => vec!["Iterator<Item = u8>".into(), "Send".into()],
-                },
-                default: if rng.chance(1, 3) { Some((*rng.pick(&["u8", "Vec<String>"])).to_string()) } else { None },
-            }),
+            Trait::TypeParam => Element::TypeParam(self.type_param(rng, r, mistakes)),
             _ => unreachable!(),
+        }
+    }
+
+    fn type_param(&mut self, rng: &mut Rng, r: &'a Recv, mistakes: &mut Vec<&'static str>) -> ETypeParam {
+        ETypeParam {
+            attrs: self.attrs_for(rng, Some(r), mistakes),
+            name: (*rng.pick(&["T", "U", "Item"])).to_string(),
+            bounds: match rng.below(4) {
+                0 => vec![],
+                1 => vec!["Clone".into()],
+                2 => vec!["Clone".into(), "?Sized".into(), "'static".into()],
+                _ => vec!["Iterator<Item = u8>".into(), "Send".into()],
+            },
+            default: if rng.chance(1, 3) { Some((*rng.pick(&["u8", "Vec<String>"])).to_string()) } else { None },
         }
     }
 }
@@ -322,6 +341,31 @@ impl Rend {
             }
         }
     }
+    fn type_param(&mut self, t: &mut ETypeParam) {
+        self.attrs(&mut t.attrs);
+        self.out.push_str(&t.name);
+        if !t.bounds.is_empty() {
+            self.out.push_str(": ");
+            self.out.push_str(&t.bounds.join(" + "));
+        }
+        if let Some(d) = &t.default {
+            self.out.push_str(" = ");
+            self.out.push_str(d);
+        }
+    }
+    /// the generic parameter list of an item
+    fn item_generics(&mut self, generics: &str, tparam: &mut Option<(String, ETypeParam, String)>) {
+        match tparam {
+            Some((before, t, after)) => {
+                self.out.push('<');
+                self.out.push_str(before);
+                self.type_param(t);
+                self.out.push_str(after);
+                self.out.push('>');
+            }
+            None => self.out.push_str(generics),
+        }
+    }
     fn variant(&mut self, v: &mut EVariant) {
         let lo = self.out.len();
         self.attrs(&mut v.attrs);
@@ -349,17 +393,20 @@ pub fn render(e: &mut Element, spacing: u8) -> RenderedElem {
                 r.out.push_str(&it.vis);
                 r.out.push(' ');
             }
-            match &mut it.body {
+            let EItem { name, generics, where_clause, body, tparam, .. } = it;
+            let it_where = where_clause.clone();
+            match body {
                 EBody::Struct(fs) => {
-                    r.out.push_str(&format!("struct {}{}", it.name, it.generics));
+                    r.out.push_str(&format!("struct {name}"));
+                    r.item_generics(generics, tparam);
                     match fs {
                         EFields::Named(_) => {
-                            r.out.push_str(&it.where_clause);
+                            r.out.push_str(&it_where);
                             r.fields(fs, false);
                         }
                         _ => {
                             // tuple / unit structs carry the where-clause after the fields
-                            let wc = it.where_clause.clone();
+                            let wc = it_where.clone();
                             match fs {
                                 EFields::Unit => {
                                     r.out.push_str(&wc);
@@ -375,7 +422,9 @@ pub fn render(e: &mut Element, spacing: u8) -> RenderedElem {
                     }
                 }
                 EBody::Enum(vs) => {
-                    r.out.push_str(&format!("enum {}{}{} {{ ", it.name, it.generics, it.where_clause));
+                    r.out.push_str(&format!("enum {name}"));
+                    r.item_generics(generics, tparam);
+                    r.out.push_str(&format!("{it_where} {{ "));
                     for (i, v) in vs.iter_mut().enumerate() {
                         if i > 0 {
                             r.out.push_str(", ");
@@ -385,7 +434,9 @@ pub fn render(e: &mut Element, spacing: u8) -> RenderedElem {
                     r.out.push_str(" }");
                 }
                 EBody::Union(fs) => {
-                    r.out.push_str(&format!("union {}{}{} {{ ", it.name, it.generics, it.where_clause));
+                    r.out.push_str(&format!("union {name}"));
+                    r.item_generics(generics, tparam);
+                    r.out.push_str(&format!("{it_where} {{ "));
                     for (i, f) in fs.iter_mut().enumerate() {
                         if i > 0 {
                             r.out.push_str(", ");
@@ -398,18 +449,7 @@ pub fn render(e: &mut Element, spacing: u8) -> RenderedElem {
         }
         Element::Field(f) => r.field(f),
         Element::Variant(v) => r.variant(v),
-        Element::TypeParam(t) => {
-            r.attrs(&mut t.attrs);
-            r.out.push_str(&t.name);
-            if !t.bounds.is_empty() {
-                r.out.push_str(": ");
-                r.out.push_str(&t.bounds.join(" + "));
-            }
-            if let Some(d) = &t.default {
-                r.out.push_str(" = ");
-                r.out.push_str(d);
-            }
-        }
+        Element::TypeParam(t) => r.type_param(t),
     }
     let attr_texts = r.attr_ranges.iter().map(|(a, b)| r.out[*a..*b].to_string()).collect();
     RenderedElem {
@@ -497,6 +537,7 @@ impl<'a> Interp<'a> {
         };
         // magic fields, in the order the generated code fills them
         let mut magic = serde_json::Map::new();
+        let mut body_errors: Vec<Leaf> = vec![];
         for m in &r.magic {
             let val: Result<Value, Vec<Leaf>> = match (m.kind, e) {
                 (MagicKind::Ident, Element::Item(i)) => Ok(tokens(&i.name)),
@@ -509,6 +550,24 @@ impl<'a> Interp<'a> {
                 (MagicKind::Vis, Element::Item(i)) => Ok(tokens(&i.vis)),
                 (MagicKind::Vis, Element::Field(f)) => Ok(tokens(&f.vis)),
                 (MagicKind::Ty, Element::Field(f)) => Ok(tokens(&f.ty)),
+                (MagicKind::Generics, Element::Item(i)) if m.tparam_recv.is_some() && i.tparam.is_some() => {
+                    // the type parameter is read by its own receiver; its mistakes are body-layer mistakes
+                    let (before, t, after) = i.tparam.as_ref().unwrap();
+                    match self.element_full(&self.recvs[m.tparam_recv.unwrap()], &Element::TypeParam(t.clone()), texts, full_text) {
+                        Outcome::Ok(v) => {
+                            let mut params = vec![];
+                            for l in before.split(',').map(|x| x.trim()).filter(|x| !x.is_empty()) {
+                                params.push(json!({ "lifetime": canon_tokens(l) }));
+                            }
+                            params.push(json!({ "type": v }));
+                            for c in after.split(',').map(|x| x.trim()).filter(|x| !x.is_empty()) {
+                                params.push(json!({ "const": canon_tokens(c) }));
+                            }
+                            Ok(json!({"params": params, "where": canon_tokens(i.where_clause.trim())}))
+                        }
+                        Outcome::Err(l) => Err(l),
+                    }
+                }
                 (MagicKind::Generics, Element::Item(i)) => {
                     let g = json!({"tokens": canon_tokens(&i.generics_for_dump()), "where": canon_tokens(i.where_clause.trim())});
                     Ok(match m.wrap {
@@ -535,8 +594,12 @@ impl<'a> Interp<'a> {
                 Ok(x) => {
                     magic.insert(format!("@{}", magic_name(m.kind)), x);
                 }
-                Err(l) => return Outcome::Err(l),
+                // the generics and the body are one layer: the mistakes of one do not hide the other's
+                Err(l) => body_errors.extend(l),
             }
+        }
+        if !body_errors.is_empty() {
+            return Outcome::Err(body_errors);
         }
         if let Some(obj) = v.get_mut(r.name()).and_then(|o| o.as_object_mut()) {
             for (k, x) in magic {
